@@ -33,7 +33,7 @@ from __future__ import annotations
 
 import ast
 
-from ..astutil import attr_chain, bind_args, callee_name, calls, is_name, is_self_attr, names_in, text, unwrap_await
+from ..astutil import call_recv, attr_chain, bind_args, callee_name, calls, is_name, is_self_attr, names_in, text, unwrap_await
 from ..core import Result
 from ..model import AnchorMissing, Repo, walk_no_nested
 
@@ -180,7 +180,7 @@ def run(repo: Repo) -> Result:
                     # with — exporting it on the parent after the child context was copied (or on
                     # any other context) leaves the nested checks without this factor.
                     res.ob(construct + ":receiver")
-                    recv = g.func.value if isinstance(g.func, ast.Attribute) else None
+                    recv = call_recv(g) if isinstance(g.func, ast.Attribute) else None
                     recv_name = recv.id if isinstance(recv, ast.Name) else None
                     with_node = None
                     cur = node
@@ -206,7 +206,7 @@ def run(repo: Repo) -> Result:
                             elif with_node is not None:
                                 # a context copied from the receiver *inside* the with (after the export)
                                 for st in ast.walk(with_node):
-                                    if isinstance(st, ast.Assign) and len(st.targets) == 1 and is_name(st.targets[0], b.id) and isinstance(st.value, ast.Call) and callee_name(st.value) == "copy" and isinstance(st.value.func, ast.Attribute) and is_name(st.value.func.value, recv_name or "") and any(k.arg == "carry_loop_iterations" and isinstance(k.value, ast.Constant) and k.value.value is True for k in st.value.keywords):
+                                    if isinstance(st, ast.Assign) and len(st.targets) == 1 and is_name(st.targets[0], b.id) and isinstance(st.value, ast.Call) and callee_name(st.value) == "copy" and isinstance(st.value.func, ast.Attribute) and is_name(call_recv(st.value), recv_name or "") and any(k.arg == "carry_loop_iterations" and isinstance(k.value, ast.Constant) and k.value.value is True for k in st.value.keywords):
                                         ok_r = True
                         if not ok_r:
                             res.add(
@@ -335,7 +335,7 @@ def run(repo: Repo) -> Result:
     ):
         f = repo.func(fq)
         for c in calls(f.node):
-            if callee_name(c) == "copy" and is_name(c.func.value, "context"):
+            if callee_name(c) == "copy" and is_name(call_recv(c), "context"):
                 res.ob(f"{fq}:copy")
                 b = bind_args(c, cp.node)
                 v = b.get("carry_loop_iterations") if b else None
